@@ -1,10 +1,12 @@
 ------------------------------- MODULE EvmRun -------------------------------
 (***************************************************************************)
 (* Batch execution of the reference machine: every element of the JSON     *)
-(* file named by the environment variable CASES is one (world, message)    *)
-(* pair = one initial state; Next is the deterministic Step; the terminal  *)
-(* state of each behaviour is printed as one JSON record.  All machine     *)
-(* invariants of Evm are checked in every state on the way.                *)
+(* file named by the environment variable CASES is one world plus a        *)
+(* sequence of messages (e.g. deployment, setUp(), test(args)) = one       *)
+(* initial state; Next is the deterministic Step, and when a message ends  *)
+(* the next one starts from the world it left (transient storage cleared). *)
+(* The terminal state of each behaviour is printed as one JSON record.     *)
+(* All machine invariants of Evm are checked in every state on the way.    *)
 (***************************************************************************)
 EXTENDS Evm, Json, IOUtils, SequencesExt
 
@@ -12,8 +14,13 @@ CONSTANT MaxSteps
 
 Cases == JsonDeserialize(IOEnv.CASES)
 
-VARIABLES cid, m, steps
-vars == <<cid, m, steps>>
+VARIABLES cid,     \* index of the case
+          m,       \* machine state of the message being executed
+          steps,   \* instructions executed so far in this case
+          ti,      \* index of the current message in Cases[cid].txs
+          w0,      \* world at the start of the current message
+          hist     \* outcomes of the finished messages: <<[ok, kind]>>
+vars == <<cid, m, steps, ti, w0, hist>>
 
 SeqToMap(s, K(_), V(_)) ==
     [k \in {K(s[i]) : i \in 1..Len(s)} |-> V(s[CHOOSE i \in 1..Len(s) : K(s[i]) = k])]
@@ -37,22 +44,45 @@ RS(k, v) == [a |-> k[1], k |-> k[2], v |-> v]
 RB(k, v) == [a |-> k, v |-> v]
 RC(k, v) == [a |-> k, c |-> v]
 
-Out(c, mm, n) ==
+Out(c, mm, n, h) ==
     [id |-> Cases[c].id, status |-> mm.status, ok |-> mm.result.ok, kind |-> mm.result.kind,
-     data |-> mm.result.data, logs |-> mm.logs, steps |-> n,
+     data |-> mm.result.data, logs |-> mm.logs, steps |-> n, pre |-> h,
      storage |-> MapToSeq(mm.world.storage, RS), balance |-> MapToSeq(mm.world.balance, RB),
      code |-> MapToSeq(mm.world.code, RC), ncreated |-> mm.ncreated]
 
 Init == /\ cid \in 1..Len(Cases)
-        /\ m = InitMachine(World0(Cases[cid]), Env0(Cases[cid]), Cases[cid].tx)
+        /\ m = InitMachine(World0(Cases[cid]), Env0(Cases[cid]), Cases[cid].txs[1])
         /\ steps = 0
+        /\ ti = 1
+        /\ w0 = World0(Cases[cid])
+        /\ hist = <<>>
 
-Next == /\ m.status = "run"
-        /\ steps < MaxSteps
-        /\ m' = Step(m)
-        /\ steps' = steps + 1
-        /\ cid' = cid
-        /\ (m'.status # "run" => PrintT("JREC" \o ToJson(Out(cid, m', steps'))))
+IsLast == ti = Len(Cases[cid].txs)
+
+StepTx == /\ m.status = "run"
+          /\ steps < MaxSteps
+          /\ m' = Step(m)
+          /\ steps' = steps + 1
+          /\ UNCHANGED <<cid, ti, w0, hist>>
+          /\ ((m'.status # "run" /\ IsLast) => PrintT("JREC" \o ToJson(Out(cid, m', steps', hist))))
+
+\* the next message of the sequence starts from the world the previous one left
+NextTx == /\ m.status = "done"
+          /\ ~IsLast
+          /\ ti' = ti + 1
+          /\ m' = [InitMachine(m.world, m.env, Cases[cid].txs[ti + 1]) EXCEPT !.ncreated = m.ncreated]
+          /\ w0' = m.world
+          /\ hist' = Append(hist, [ok |-> m.result.ok, kind |-> m.result.kind])
+          /\ UNCHANGED <<cid, steps>>
+
+\* a message the specification does not model ends the case
+Abandon == /\ m.status = "unmodelled"
+           /\ ~IsLast
+           /\ ti' = Len(Cases[cid].txs)
+           /\ PrintT("JREC" \o ToJson(Out(cid, m, steps, hist)))
+           /\ UNCHANGED <<cid, m, steps, w0, hist>>
+
+Next == StepTx \/ NextTx \/ Abandon
 
 Spec == Init /\ [][Next]_vars
 
@@ -62,6 +92,8 @@ InvDepth == DepthConsistent(m)
 InvWords == WordsWellFormed(m)
 InvStatic == StaticNoWrite(m)
 InvContext == ContextCorrect(m)
-InvBalance == BalanceConserved(m, TotalBalance(World0(Cases[cid])))
-InvFailure == FailureRestores(m, World0(Cases[cid]))
+InvBalance == BalanceConserved(m, TotalBalance(w0))
+InvFailure == FailureRestores(m, w0)
+\* every message starts with empty transient storage (EIP-1153)
+TransientFresh == [][(ti' # ti /\ m'.status = "run") => m'.world.tstorage = EmptyMap]_vars
 =============================================================================
